@@ -531,6 +531,36 @@ pub mod std {
     pub use ::std::path;
     pub use ::std::ffi;
 
+    /// Waiting primitives (C06 C20): no operation of the crate ever waits for time to pass or for another
+    /// participant.  The stand-ins can never be called: their precondition is `false`.
+    pub mod thread {
+        #[verifier::external_body]
+        pub fn sleep(dur: super::time::Duration)
+            requires
+                false,   // @L C06 C20:no-operation-ever-sleeps-or-waits
+        {
+            unimplemented!()
+        }
+
+        #[verifier::external_body]
+        pub fn yield_now()
+            requires
+                false,   // @L C06 C20:no-operation-ever-sleeps-or-waits
+        {
+            unimplemented!()
+        }
+    }
+
+    pub mod hint {
+        #[verifier::external_body]
+        pub fn spin_loop()
+            requires
+                false,   // @L C06 C20:no-operation-ever-sleeps-or-waits
+        {
+            unimplemented!()
+        }
+    }
+
     pub mod time {
         use super::super::*;
         use vstd::std_specs::cmp::*;
@@ -552,6 +582,11 @@ pub mod std {
                     r.secs == secs,
             {
                 Duration { secs }
+            }
+
+            #[verifier::external_body]
+            pub const fn from_millis(ms: u64) -> (r: Duration) {
+                unimplemented!()
             }
         }
 
@@ -640,6 +675,18 @@ pub mod std {
 
                 pub trait PermissionsExt: Sized {
                     fn from_mode(mode: u32) -> Self;
+                }
+
+                /// Only the link count (unspecified value) is offered.
+                pub trait MetadataExt {
+                    fn nlink(&self) -> u64;
+                }
+
+                impl MetadataExt for std::fs::Metadata {
+                    #[verifier::external_body]
+                    fn nlink(&self) -> u64 {
+                        unimplemented!()
+                    }
                 }
 
                 impl PermissionsExt for std::fs::Permissions {
